@@ -32,17 +32,24 @@ READING (instances that `instantiate_problem` never builds; `gen_problem` produc
     (`gate_id >= 1`); the checker follows that;
   * gates whose ends are NOT closed (`kind = "open"`, produced only by `gen_problem(..., open_ends=True)`, never by the
     default generator): the module never states the right-angle rule, it only demands exactly one loop cell per gate;
-    that implies the right-angle rule only when both ends are closed.  With an open end the module admits loops that
-    leave the gate cell through the open end (running along the dotted line), which rule 4 forbids.  Not a defect of
-    the solver on well-formed input; `open_end_report` in this file quantifies it.
+    that implies the right-angle rule only when both ends are closed (Lean: `Cspuz.Proofs.C11SlalomA.perp`).  With an
+    open end the module admits loops that leave the gate cell through the open end (running along the dotted line),
+    which rule 4 forbids: on 500 instances generated in that mode (seeds 0, 1; 312 of them with an open end) the module
+    disagreed with this checker on 212 and agreed on ALL 500 with the weaker reading "exactly one cell of the gate is on
+    the loop".  Not a defect of the solver on well-formed input.
   * the empty loop (library convention "no line is a loop") is impossible here: the circle must be on the loop.
+
+The Lean theorem (Properties/C11_Slalom.lean) proves, for every well-formed instance, that the posted program (model
+`Cspuz.Puzzles.Slalom.program`, tied to the real module by the program correspondence) encodes
+Spec/PuzzleRules/Slalom.lean::Rules - the same five rules, stated with a round trip (list of the cells of the loop from
+the circle onwards).
 """
 from . import _loop
 
 NAME = "slalom"
-STATUS = "model+differential"
-THEOREMS = []
-LEAN_FILE = None
+STATUS = "theorem"
+THEOREMS = ["Cspuz.C11.Slalom.program_iff_rules", "Cspuz.C11.Slalom.total"]
+LEAN_FILE = "C11_Slalom"
 LEAN_CMD = "puz_slalom"
 
 _SHAPES = [(1, 1), (1, 3), (3, 1), (2, 2), (2, 3), (3, 2), (3, 3), (3, 3), (3, 3), (2, 4), (4, 2), (3, 4), (4, 3), (3, 4), (4, 3),
